@@ -56,6 +56,13 @@ def judge_ctl(run, cases, rows):
             run.failing({"kind": KIND.get(r[DC], str(r[DC])), "level": "controller-events", "event_kind": ev["spec"]["kind"]}, [c],
                         "C05: accumulating the Events recorded by the real LoadBalancerController.sync, after step %d of case %d %s; events of that step: %s"
                         % (r[DS], c["id"], WHAT.get(r[DC], r[DC]), json.dumps(c["ctl"][r[DS] - 1]["events"])[:500]), theorem="Arb.Cases.ctl_run")
+        elif len(r) > 12 and r[11] != 0:
+            st = c["ctl"][r[11] - 1]
+            run.failing({"kind": KIND.get(r[12], str(r[12])), "level": "controller-status"}, [c],
+                        "C05: accumulating the status.reason the real LoadBalancerController.sync wrote to the status subresources (the informer store receives the written status, as after a "
+                        "watch event), after step %d of case %d %s; status writes of that step: %s"
+                        % (r[11], c["id"], WHAT.get(r[12], r[12]), json.dumps([(w["resource"], w["key"], w.get("reason")) for w in st["writes"]])[:500]),
+                        theorem="Arb.Cases.status_run")
         elif r[DD] != 0 and r[DK] == 2:
             ev = c["histories"][0]["events"][r[DD] - 1]
             run.failing({"kind": "event-not-delivered", "event_kind": ev["spec"]["kind"]}, [c],
